@@ -249,6 +249,24 @@ static std::string firstDiff(const std::string& a, const std::string& b)
   return fmt("first difference at byte %d: '", (int)i) + line(a) + "' vs '" + line(b) + "'";
 }
 
+// two texts which differ only by numbers equal to 1e-14 relative (a recomputed quantity printed again)
+static bool sameUpToLastDigit(const std::string& a, const std::string& b)
+{
+  std::istringstream sa(a), sb(b);
+  std::string wa, wb;
+  while (true)
+  {
+    bool ga = bool(sa >> wa), gb = bool(sb >> wb);
+    if (ga != gb) return false;
+    if (!ga) return true;
+    if (wa == wb) continue;
+    char *ea = nullptr, *eb = nullptr;
+    double va = strtod(wa.c_str(), &ea), vb = strtod(wb.c_str(), &eb);
+    if (*ea != 0 || *eb != 0 || ea == wa.c_str() || eb == wb.c_str()) return false;
+    if (!eqv(va, vb)) return false;
+  }
+}
+
 // generic reader for classes without createFromNF: checks the tag like _fileOpenRead does
 template<class T> static T* loadByTag(const std::string& path, const std::string& tag)
 {
@@ -292,7 +310,8 @@ static bool roundTrip(const std::string& cls, const std::string& tag, const char
   }
   if (s2 != s1)
   {
-    ctx.fail(cls + ":reserialize", "writing the reloaded object does not reproduce the text: " + firstDiff(s1, s2));
+    ctx.fail(cls + (sameUpToLastDigit(s1, s2) ? ":reserialize-last-digit" : ":reserialize"),
+             "writing the reloaded object does not reproduce the text: " + firstDiff(s1, s2));
     return false;
   }
 
@@ -2385,5 +2404,283 @@ static void runFrac(const FracCase& c, Ctx& ctx)
   ctx.sig = h.h;
 }
 VERIF_SUB(frac, FracCase, genFrac, runFrac);
+
+// ====================================================================== anamorphoses =====
+struct AnamCase
+{
+  int kind = 0;   // 0 Hermite, 1 Empirical, 2 DiscreteDD, 3 DiscreteIR
+  bool fit = true; // fitted on generated data / parameters given through reset()
+  std::vector<double> data;   // fit
+  int nbpoly = 5;
+  int ndisc = 10;
+  std::vector<double> bounds; // 8: pymin,pzmin,pymax,pzmax,aymin,azmin,aymax,azmax
+  double coef = 1;            // r / s coefficient
+  double mu = 1;
+  double sigma2e = TEST;
+  std::vector<double> psi;    // hermite coefficients (reset)
+  std::vector<double> zd, yd; // empirical discretisation (reset)
+  std::vector<double> zcut;   // discrete: cutoffs
+  std::vector<double> stats;  // discrete (reset): nclass * nelem
+  std::vector<double> pca;    // DD (reset): 2 * ncut*ncut
+  std::vector<double> q;      // queries in (0,1): positions in the data / gaussian range
+  FOpt fo;
+  template<class A> void io(A& a)
+  {
+    a("kind", kind)("fit", fit)("data", data)("nbpoly", nbpoly)("ndisc", ndisc)("bounds", bounds)("coef", coef)("mu", mu)("sigma2e", sigma2e)
+     ("psi", psi)("zd", zd)("yd", yd)("zcut", zcut)("stats", stats)("pca", pca)("q", q)("fo", fo);
+  }
+};
+static AnamCase genAnam()
+{
+  AnamCase c;
+  c.kind = G::i(0, 3);
+  c.fit = G::pct(60);
+  if (c.kind == 2) c.fit = false; // (AnamDiscreteDD::fitFromArray needs a PCA computed on a Db first, else it reads a null matrix: not a reload question)
+  int n = G::sz(12, 60);
+  double scale = G::pick<double>({1., 1e-3, 1e3, 37.5});
+  for (int i = 0; i < n; i++) c.data.push_back(scale * std::exp(G::u(-1.5, 1.5)) * (1. + 1e-3 * i));
+  c.nbpoly = G::sz(2, 20);
+  c.ndisc = G::sz(3, 30);
+  // bounds: ordered y in [-10,10], z positive, optionally NA
+  double py0 = G::u(-4., -1.), py1 = G::u(1., 4.), pz0 = genPos(1e-3, 1.), pz1 = pz0 * genPos(10., 1e3);
+  c.bounds = {py0, pz0, py1, pz1, py0 - G::u(0., 5.), pz0 * G::u(0.1, 1.), py1 + G::u(0., 5.), pz1 * genPos(1., 10.)};
+  if (G::pct(25)) for (auto& b : c.bounds) if (G::pct(30)) b = TEST;
+  c.coef = G::pct(40) ? 1. : strtod(fmt("%.15g", G::u(0.05, 1.)).c_str(), nullptr);
+  if (G::b() && c.coef < 1) c.coef = G::u(0.05, 1.);
+  c.mu = genPos(0.1, 10.);
+  c.sigma2e = G::pct(50) ? TEST : genPos(1e-6, 1.);
+  for (int i = 0; i < c.nbpoly; i++) c.psi.push_back((i == 0 ? 1. : 1. / (i * i)) * genVal(0) * 1e-0);
+  for (auto& v : c.psi) if (std::fabs(v) > 1e6) v = G::r(-5, 5, 8);
+  double z = genPos(1e-3, 1.), y = G::u(-4., -3.);
+  for (int i = 0; i < c.ndisc; i++)
+  {
+    c.zd.push_back(z);
+    c.yd.push_back(y);
+    z += genPos(1e-3, 10.);
+    y += G::u(0.01, 0.5);
+  }
+  int ncut = G::sz(1, 5);
+  // cutoffs inside the range of the data, increasing
+  std::vector<double> sorted = c.data;
+  std::sort(sorted.begin(), sorted.end());
+  for (int k = 0; k < ncut; k++)
+  {
+    double v = sorted[(size_t)((k + 1) * (sorted.size() - 1) / (size_t)(ncut + 1))] * 1.0001;
+    if (!c.zcut.empty() && v <= c.zcut.back()) v = c.zcut.back() * 1.01;
+    c.zcut.push_back(G::b() ? v : strtod(fmt("%.15g", v).c_str(), nullptr));
+  }
+  int nclass = ncut + 1;
+  for (int i = 0; i < nclass * 6; i++) c.stats.push_back(G::pct(10) ? genVal(0) : genPos(1e-3, 1e3));
+  for (int i = 0; i < 2 * ncut * ncut; i++) c.pca.push_back(genVal(0));
+  for (int i = 0; i < 8; i++) c.q.push_back(G::u(0.02, 0.98));
+  c.fo = genFOpt();
+  return c;
+}
+static bool cmpContinuous(const std::string& cls, const AnamContinuous& a, const AnamContinuous& b, Ctx& ctx)
+{
+  CHECK_EQ_DBL(cls, "azmin", a.getAzmin(), b.getAzmin());
+  CHECK_EQ_DBL(cls, "azmax", a.getAzmax(), b.getAzmax());
+  CHECK_EQ_DBL(cls, "aymin", a.getAymin(), b.getAymin());
+  CHECK_EQ_DBL(cls, "aymax", a.getAymax(), b.getAymax());
+  CHECK_EQ_DBL(cls, "pzmin", a.getPzmin(), b.getPzmin());
+  CHECK_EQ_DBL(cls, "pzmax", a.getPzmax(), b.getPzmax());
+  CHECK_EQ_DBL(cls, "pymin", a.getPymin(), b.getPymin());
+  CHECK_EQ_DBL(cls, "pymax", a.getPymax(), b.getPymax());
+  CHECK_EQ_DBL(cls, "mean", a.getMean(), b.getMean());
+  CHECK_EQ_DBL(cls, "variance", a.getVariance(), b.getVariance());
+  return true;
+}
+// transforms at generated arguments; tolerance: the polynomial / interpolation is Lipschitz in its coefficients
+static bool cmpTransforms(const std::string& cls, const AnamContinuous& a, const AnamContinuous& b, const AnamCase& c, double zlo, double zhi, bool alsoRaw, Ctx& ctx)
+{
+  for (double u : c.q)
+  {
+    double y = -3.5 + 7. * u;
+    double za = 0, zb = 0;
+    try { za = a.transformToRawValue(y); } catch (const std::exception&) { ctx.label("query-refused-by-original"); continue; }
+    zb = b.transformToRawValue(y);
+    double scale = std::max(std::fabs(zlo), std::fabs(zhi));
+    if (!eqv(za, zb, 1e-11) && !(std::fabs(za - zb) <= 1e-11 * scale))
+    {
+      ctx.fail(cls + ":query:transformToRawValue", fmt("y=%.17g: z=%.17g before, %.17g after reload", y, za, zb));
+      return false;
+    }
+    if (!alsoRaw) continue;
+    double z = zlo + (zhi - zlo) * u;
+    double ya = 0, yb = 0;
+    try { ya = a.rawToTransformValue(z); } catch (const std::exception&) { ctx.label("query-refused-by-original"); continue; }
+    yb = b.rawToTransformValue(z);
+    if (!eqv(ya, yb, 1e-8) && !(std::fabs(ya - yb) <= 1e-8))
+    {
+      ctx.fail(cls + ":query:rawToTransformValue", fmt("z=%.17g: y=%.17g before, %.17g after reload", z, ya, yb));
+      return false;
+    }
+  }
+  return true;
+}
+static bool cmpDiscrete(const std::string& cls, const AnamDiscrete& a, const AnamDiscrete& b, Ctx& ctx)
+{
+  CHECK_EQ_INT(cls, "ncut", a.getNCut(), b.getNCut());
+  CHECK_EQ_INT(cls, "nclass", a.getNClass(), b.getNClass());
+  CHECK_EQ_INT(cls, "nelem", a.getNElem(), b.getNElem());
+  if (!sameVecD(cls, "zcut", a.getZCut(), b.getZCut(), ctx)) return false;
+  for (int i = 0; i < a.getNClass(); i++)
+    for (int j = 0; j < a.getNElem(); j++) CHECK_EQ_DBL(cls, "stats", a.getStats().getValue(i, j), b.getStats().getValue(i, j));
+  return true;
+}
+static void runAnam(const AnamCase& c, Ctx& ctx)
+{
+  resetGlobals();
+  ctx.label(c.fit ? "built:fit" : "built:reset");
+  Hash h;
+  h.add(c.kind).add(c.fit ? 1 : 0).add(c.fo.mode);
+  double zlo = *std::min_element(c.data.begin(), c.data.end()), zhi = *std::max_element(c.data.begin(), c.data.end());
+  const std::vector<double>& B = c.bounds;
+  bool ok = false;
+  if (c.kind == 0)
+  {
+    std::unique_ptr<AnamHermite> x(AnamHermite::create(c.nbpoly, true, 1.));
+    ctx.at("AnamHermite:build");
+    if (c.fit)
+    {
+      if (x->fitFromArray(toVD(c.data)) != 0) { ctx.label("build-refused"); return; }
+      if (c.coef < 1.) x->setRCoef(c.coef);
+    }
+    else
+      x->reset(B[0], B[1], B[2], B[3], B[4], B[5], B[6], B[7], c.coef, toVD(c.psi));
+    // a point -> block coefficient r < 1 has its own class key (the coefficients are written already multiplied by r^n)
+    const std::string cls = x->getRCoef() < 1. ? "AnamHermiteBlock" : "AnamHermite";
+    ctx.label("class:" + cls);
+    h.add(x->getNbPoly()).addq(x->getRCoef());
+    for (double v : x->getPsiHns()) h.addq(v);
+    ok = roundTrip<AnamHermite>(cls, "AnamHermite", "nf_AnamHermite", *x, []() { return new AnamHermite(); },
+                                [](const std::string& p) { return AnamHermite::createFromNF(p, false); },
+                                [&](const AnamHermite& a, const AnamHermite& b, Ctx& cx) {
+                                  auto& ctx = cx;
+                                  if (!cmpContinuous(cls, a, b, cx)) return false;
+                                  CHECK_EQ_INT(cls, "nbpoly", a.getNbPoly(), b.getNbPoly());
+                                  CHECK_EQ_DBL(cls, "rcoef", a.getRCoef(), b.getRCoef());
+                                  if (!sameVecD(cls, "psihn", a.getPsiHns(), b.getPsiHns(), cx)) return false;
+                                  double lo = zlo, hi = zhi;
+                                  if (!c.fit) { lo = 0; hi = 0; for (double v : a.getPsiHns()) hi += std::fabs(v) * 50.; }
+                                  return cmpTransforms(cls, a, b, c, lo, hi, c.fit, cx);
+                                }, c.fo, ctx);
+    ctx.nontrivial(ok && x->getNbPoly() >= 2 && x->getRCoef() < 1.);
+  }
+  else if (c.kind == 1)
+  {
+    ctx.label("class:AnamEmpirical");
+    std::unique_ptr<AnamEmpirical> x(AnamEmpirical::create(c.ndisc, c.sigma2e));
+    ctx.at("AnamEmpirical:build");
+    if (c.fit)
+    {
+      if (x->fitFromArray(toVD(c.data)) != 0) { ctx.label("build-refused"); return; }
+    }
+    else
+      x->reset(c.ndisc, B[0], B[1], B[2], B[3], B[4], B[5], B[6], B[7], c.sigma2e, toVD(c.zd), toVD(c.yd));
+    h.add(x->getNDisc()).addq(x->getSigma2e());
+    for (double v : x->getZDisc()) h.addq(v);
+    ok = roundTrip<AnamEmpirical>("AnamEmpirical", "AnamEmpirical", "nf_AnamEmpirical", *x, []() { return new AnamEmpirical(); },
+                                  [](const std::string& p) { return AnamEmpirical::createFromNF(p, false); },
+                                  [&](const AnamEmpirical& a, const AnamEmpirical& b, Ctx& cx) {
+                                    auto& ctx = cx;
+                                    if (!cmpContinuous("AnamEmpirical", a, b, cx)) return false;
+                                    CHECK_EQ_INT("AnamEmpirical", "ndisc", a.getNDisc(), b.getNDisc());
+                                    CHECK_EQ_DBL("AnamEmpirical", "sigma2e", a.getSigma2e(), b.getSigma2e());
+                                    if (!sameVecD("AnamEmpirical", "zdisc", a.getZDisc(), b.getZDisc(), cx)) return false;
+                                    if (!sameVecD("AnamEmpirical", "ydisc", a.getYDisc(), b.getYDisc(), cx)) return false;
+                                    double lo = zlo, hi = zhi;
+                                    if (!c.fit) { lo = c.zd.front(); hi = c.zd.back(); }
+                                    return cmpTransforms("AnamEmpirical", a, b, c, lo, hi, true, cx);
+                                  }, c.fo, ctx);
+    ctx.nontrivial(ok && x->getNDisc() >= 2);
+  }
+  else if (c.kind == 2)
+  {
+    ctx.label("class:AnamDiscreteDD");
+    std::unique_ptr<AnamDiscreteDD> x(AnamDiscreteDD::create(c.mu, c.coef < 1. ? c.coef : 0.));
+    int ncut = (int)c.zcut.size();
+    ctx.at("AnamDiscreteDD:build");
+    if (c.fit)
+    {
+      x->setZCut(toVD(c.zcut));
+      (void)x->fitFromArray(toVD(c.data));
+    }
+    else
+    {
+      MatrixSquareGeneral z2f(ncut), f2z(ncut);
+      for (int i = 0; i < ncut; i++)
+        for (int j = 0; j < ncut; j++) { z2f.setValue(i, j, c.pca[(size_t)(i * ncut + j)]); f2z.setValue(i, j, c.pca[(size_t)(ncut * ncut + i * ncut + j)]); }
+      int nelem = x->getNElem();
+      VectorDouble st;
+      for (int i = 0; i < (ncut + 1) * nelem; i++) st.push_back(c.stats[(size_t)i % c.stats.size()]);
+      x->reset(ncut, c.coef < 1. ? c.coef : 0., c.mu, toVD(c.zcut), z2f, f2z, st);
+    }
+    h.add(ncut).addq(x->getMu()).addq(x->getSCoef());
+    for (double v : c.zcut) h.addq(v);
+    ok = roundTrip<AnamDiscreteDD>("AnamDiscreteDD", "AnamDiscreteDD", "nf_AnamDiscreteDD", *x, []() { return new AnamDiscreteDD(); },
+                                   [](const std::string& p) { return AnamDiscreteDD::createFromNF(p, false); },
+                                   [&](const AnamDiscreteDD& a, const AnamDiscreteDD& b, Ctx& cx) {
+                                     auto& ctx = cx;
+                                     if (!cmpDiscrete("AnamDiscreteDD", a, b, cx)) return false;
+                                     CHECK_EQ_DBL("AnamDiscreteDD", "scoef", a.getSCoef(), b.getSCoef());
+                                     CHECK_EQ_DBL("AnamDiscreteDD", "mu", a.getMu(), b.getMu());
+                                     MatrixSquareGeneral az = a.getPcaZ2Fs(), bz = b.getPcaZ2Fs(), af = a.getPcaF2Zs(), bf = b.getPcaF2Zs();
+                                     CHECK_EQ_INT("AnamDiscreteDD", "pca-size", az.getNRows(), bz.getNRows());
+                                     for (int i = 0; i < az.getNRows(); i++)
+                                       for (int j = 0; j < az.getNCols(); j++)
+                                       {
+                                         CHECK_EQ_DBL("AnamDiscreteDD", "pca-z2f", az.getValue(i, j), bz.getValue(i, j));
+                                         CHECK_EQ_DBL("AnamDiscreteDD", "pca-f2z", af.getValue(i, j), bf.getValue(i, j));
+                                       }
+                                     CHECK_QRY_DBL("AnamDiscreteDD", "mean", a.getMean(), b.getMean(), 1e-12);
+                                     CHECK_QRY_DBL("AnamDiscreteDD", "variance", a.getVariance(), b.getVariance(), 1e-11);
+                                     return true;
+                                   }, c.fo, ctx);
+    ctx.nontrivial(ok && ncut >= 2);
+  }
+  else
+  {
+    ctx.label("class:AnamDiscreteIR");
+    std::unique_ptr<AnamDiscreteIR> x(AnamDiscreteIR::create(c.coef < 1. ? c.coef : 0.));
+    int ncut = (int)c.zcut.size();
+    ctx.at("AnamDiscreteIR:build");
+    if (c.fit)
+    {
+      x->setZCut(toVD(c.zcut));
+      (void)x->fitFromArray(toVD(c.data));
+    }
+    else
+    {
+      int nelem = x->getNElem();
+      VectorDouble st;
+      for (int i = 0; i < (ncut + 1) * nelem; i++) st.push_back(c.stats[(size_t)i % c.stats.size()]);
+      x->reset(ncut, c.coef < 1. ? c.coef : 0., toVD(c.zcut), st);
+    }
+    h.add(ncut).addq(x->getRCoef());
+    for (double v : c.zcut) h.addq(v);
+    ok = roundTrip<AnamDiscreteIR>("AnamDiscreteIR", "AnamDiscreteIR", "nf_AnamDiscreteIR", *x, []() { return new AnamDiscreteIR(); },
+                                   [](const std::string& p) { return AnamDiscreteIR::createFromNF(p, false); },
+                                   [&](const AnamDiscreteIR& a, const AnamDiscreteIR& b, Ctx& cx) {
+                                     auto& ctx = cx;
+                                     if (!cmpDiscrete("AnamDiscreteIR", a, b, cx)) return false;
+                                     CHECK_EQ_DBL("AnamDiscreteIR", "rcoef", a.getRCoef(), b.getRCoef());
+                                     // behaviour: factors of generated grades
+                                     VectorInt ifacs;
+                                     for (int k = 1; k <= a.getNCut(); k++) ifacs.push_back(k);
+                                     for (double u : c.q)
+                                     {
+                                       double z = zlo + (zhi - zlo) * u;
+                                       if (!sameVecD("AnamDiscreteIR", "z2factor", a.z2factor(z, ifacs), b.z2factor(z, ifacs), cx, ":query:", 1e-12)) return false;
+                                     }
+                                     CHECK_QRY_DBL("AnamDiscreteIR", "mean", a.getMean(), b.getMean(), 1e-12);
+                                     CHECK_QRY_DBL("AnamDiscreteIR", "variance", a.getVariance(), b.getVariance(), 1e-11);
+                                     return true;
+                                   }, c.fo, ctx);
+    ctx.nontrivial(ok && ncut >= 2);
+  }
+  ctx.sig = h.h;
+}
+VERIF_SUB(anam, AnamCase, genAnam, runAnam);
 
 VERIF_MAIN()
